@@ -100,6 +100,20 @@ pub fn resp_check(kind: Kind, mode: Mode, model: &Value, info: RInfo, obs: &mut 
         Mode::Members => {
             check_encoding(kind, &model, &out)
                 .map_err(|m| Fail::new(sig_of(prop, kind.name(), &m), format!("{} response: {}", kind.name(), m), case(&out)))?;
+            // serialising the same response again into the buffer that holds its own output
+            {
+                use ctap_types::Vec as HVec;
+                let mut buf: HVec<u8, 7609> = HVec::new();
+                resp.serialize(&mut buf);
+                resp.serialize(&mut buf);
+                if buf.as_slice() != &out[..] {
+                    return Err(Fail::new(
+                        format!("C02:{}:not-idempotent", kind.name()),
+                        format!("{} response serialised twice into the same buffer differs from serialising once", kind.name()),
+                        case(&buf),
+                    ));
+                }
+            }
             // the same response into a buffer that is not fresh (a reused transport buffer):
             // the encoded message must be the same
             let prior = [1usize, 2, 7, 64, 300, 7609][n_entries % 6];
@@ -336,8 +350,8 @@ pub const ASSUMPTIONS: &[&str] = &[
 ];
 
 pub fn run_mode(ctx: &mut Ctx, mode: Mode) {
-    let per_prefix = ctx.t(3, 40);
-    let free = ctx.t(1_500, 60_000);
+    let per_prefix = ctx.t(6, 40);
+    let free = ctx.t(4_000, 60_000);
     for kind in KINDS {
         if mode == Mode::Canonical && !kind.has_params() {
             continue;
